@@ -44,6 +44,37 @@ m = re.search(r"const MAX_INVARIANT_SIZE: Size = Size::new\((0x[0-9a-fA-F]+|\d+)
 if not m: fail("max invariant size")
 max_size = int(m.group(1), 0)
 
+# When truth tables (query.rs): first matching arm wins
+query = read("query.rs")
+WN = ["Always", "Sometimes", "Never"]
+def when_table(fn):
+    m = re.search(r"pub fn %s\(self, other: Self\) -> Self \{.*?match \(self, other\) \{(.*?)\n        \}" % fn, query, re.S)
+    if not m: fail("When::" + fn)
+    tab = {}
+    for pats, res in re.findall(r"((?:\([^()]*\)\s*\|?\s*)+)=>\s*(\w+),", m.group(1)):
+        for a, b in re.findall(r"\(\s*(\w+)\s*,\s*(\w+)\s*\)", pats):
+            for x in (WN if a == "_" else [a]):
+                for y in (WN if b == "_" else [b]):
+                    tab.setdefault((x, y), res)
+    if set(tab) != set(itertools.product(WN, WN)): fail("When::%s incomplete" % fn)
+    return tab
+when_and, when_or, when_cert = when_table("and"), when_table("or"), when_table("certainty")
+
+enc = read("encode.rs")
+m = re.search(r'const NEVER_EXPRESSION: &str = "((?:[^"\\]|\\.)*)";', enc)
+if not m: fail("NEVER_EXPRESSION")
+never_expr = m.group(1)
+m = re.search(r'#\[cfg\(unix\)\]\s*const SEPARATOR_CLASS_EXPRESSION: &str = "((?:[^"\\]|\\.)*)";', enc)
+if not m: fail("SEPARATOR_CLASS_EXPRESSION (unix)")
+sep_class = m.group(1)
+m = re.search(r'pub const ROOT_SEPARATOR_EXPRESSION: &str = "((?:[^"\\]|\\.)*)";', parse)
+if not m: fail("ROOT_SEPARATOR_EXPRESSION")
+root_sep = m.group(1)
+tokmod = read("token/mod.rs")
+m = re.search(r'#\[cfg\(any\(unix, windows\)\)\]\s*pub fn is_semantic_literal\(&self\) -> bool \{\s*matches!\(self\.text\(\)\.as_ref\(\), ((?:"[^"]*"\s*\|?\s*)+)\)', tokmod)
+if not m: fail("is_semantic_literal")
+sem_lits = re.findall(r'"([^"]*)"', m.group(1))
+
 def lchar(c):
     c = c[-1] if c.startswith("\\") and len(c) == 2 and c[1] != "\\" else ("\\" if c in ("\\\\",) else c)
     return "'\\\\'" if c == "\\" else "'\\''" if c == "'" else f"'{c}'"
@@ -60,6 +91,15 @@ out.append("inductive K where | left | right | neither deriving DecidableEq, Rep
 out.append("def terminationTable : List (T × T × K × T) := [")
 rows = [f"  (.{lean_name[l]}, .{lean_name[r]}, .{table[(l, r)][0].lower()}, .{lean_name[table[(l, r)][1]]})" for l in NAMES for r in NAMES]
 out.append(",\n".join(rows) + "]")
+wl = {"Always": "always", "Sometimes": "sometimes", "Never": "never"}
+out.append("inductive W where | always | sometimes | never deriving DecidableEq, Repr")
+for name, tab in (("whenAnd", when_and), ("whenOr", when_or), ("whenCertainty", when_cert)):
+    out.append("def %s : List (W × W × W) := [" % name + ", ".join("(.%s, .%s, .%s)" % (wl[a], wl[b], wl[tab[(a, b)]]) for a in WN for b in WN) + "]")
+def lstr(x): return '"' + x.replace("\\", "\\\\").replace('"', '\\"') + '"'
+out.append("def neverExpression : String := %s" % lstr(never_expr))
+out.append("def separatorClassExpression : String := %s" % lstr(sep_class))
+out.append("def rootSeparatorExpression : String := %s" % lstr(root_sep))
+out.append("def semanticLiterals : List String := [%s]" % ", ".join(lstr(x) for x in sem_lits))
 out += ["", "-- obligations re-checked against the code as it is now",
  "theorem meta_eq_escapes : metaChars.all (literalEscapes.contains ·) && literalEscapes.all (metaChars.contains ·) = true := by decide",
  "theorem stop_is_meta_plus_sep_bs : literalStopSet.all (fun c => c == '/' || c == '\\\\' || metaChars.contains c) && metaChars.all (literalStopSet.contains ·) && literalStopSet.contains '/' && literalStopSet.contains '\\\\' = true := by decide",
